@@ -116,6 +116,34 @@ def decKV (v : V) : Option (String × Rat) :=
   | _ => none
 def encKV (p : String × Rat) : V := .list [.atom p.1, encRat p.2]
 
+
+/-! C14: object machine -/
+open Bycycle.Obj in
+def encSettings (st : Obj.Settings) : V :=
+  .list [encBool st.peak, encBool st.cycles, encList encKV st.burstKwargs, encList encKV st.thresholds, encNat st.fek, encBool st.returnSamples]
+def encTerm : Obj.Term → V
+  | .cf st x => .list [.atom "cf", encSettings st, encNat x]
+  | .rc t th => .list [.atom "rc", encTerm t, encList encKV th]
+  | .loaded i => .list [.atom "loaded", encNat i]
+def decObjOp (v : V) : Option (Obj.Op Nat Obj.Term × Bool) :=
+  match v with
+  | .list [op, flag] => do
+    let flag ← flag.bool?
+    let op ← (match op with
+      | .list [.atom "fit", x] => x.nat?.map Obj.Op.fit
+      | .list [.atom "edges", r] => (r.opt? V.rat?).map Obj.Op.edges
+      | .list [.atom "load", i, x] => do let i ← i.nat?; let x ← x.nat?; pure (Obj.Op.load (.loaded i) x)
+      | .list [.atom "edit", .atom k, q] => q.rat?.map (Obj.Op.edit k)
+      | .list [.atom "rebind", th] => (th.listOf? decKV).map Obj.Op.rebind
+      | .list [.atom "editbk", .atom k, q] => q.rat?.map (Obj.Op.editbk k)
+      | .list [.atom "attr", .atom k] => some (Obj.Op.attr k)
+      | _ => none)
+    pure (op, flag)
+  | _ => none
+def encObjOut : Obj.Out → V
+  | .done => .atom "done" | .raised => .atom "raised" | .column _ => .atom "column"
+def encOptV {α} (f : α → V) : Option α → V | none => .atom "None" | some a => f a
+
 def handle (args : List V) : V :=
   match args with
   | [.atom "ping"] => .atom "pong"
@@ -378,6 +406,13 @@ def handle (args : List V) : V :=
     match th.listOf? decKV, r.opt? V.rat? with
     | some th, some r => encList encKV (reduceThresholds th r)
     | _, _ => bad "objs.reduce"
+  | [.atom "obj.trace", peak, cycles, bk, th, fek, rs, ops] =>
+    match peak.bool?, cycles.bool?, bk.opt? (V.listOf? decKV), th.opt? (V.listOf? decKV), fek.opt? V.nat?, rs.bool?, ops.listOf? decObjOp with
+    | some peak, some cycles, some bk, some th, some fek, some rs, some ops =>
+      let o : Obj.Obj Nat Obj.Term := Obj.construct peak cycles bk th fek rs
+      .list (.list [.atom "constructed", encSettings o.st, .atom "None", .atom "None"] ::
+        (Obj.trace o ops).map fun (out, o') => .list [encObjOut out, encSettings o'.st, encOptV encNat o'.sig, encOptV encTerm o'.df])
+    | _, _, _, _, _, _, _ => bad "obj.trace"
   -- C20: marker indices / burst highlight for a view lo … lo+len-1; `x` is the float product the source truncates or rounds
   | [.atom "plot.markers", lo, len, x, pts] =>
     match lo.nat?, len.nat?, x.rat?, pts.listOf? V.int? with
